@@ -27,13 +27,23 @@ def uf(name, arity):
     return _UF[key]
 
 
+def opt_code(k):
+    """An option value enters the uninterpreted function together with its Python type: 2, 2.0 and True are
+    different arguments for a user function."""
+    if isinstance(k, (bool, np.bool_)):
+        return z3.IntVal(2_000_000 + int(k))
+    if isinstance(k, (float, np.floating)):
+        return z3.IntVal(1_000_000 + int(round(float(k) * 16)) + (500_000 if str(float(k)).startswith("-0.0") else 0))
+    return z3.IntVal(int(k))
+
+
 def F_lane(lane, kw):
-    args = [elem.z(elem.arith(x)) for x in lane] + [z3.IntVal(int(k)) for k in kw]
+    args = [elem.z(elem.arith(x)) for x in lane] + [opt_code(k) for k in kw]
     return uf("F", len(args))(*args)
 
 
 def G_point(vals, kw):
-    args = [elem.z(elem.arith(x)) for x in vals] + [z3.IntVal(int(k)) for k in kw]
+    args = [elem.z(elem.arith(x)) for x in vals] + [opt_code(k) for k in kw]
     return uf("G", len(args))(*args)
 
 
@@ -85,8 +95,8 @@ def concrete_fn(kind, with_kw):
             axis = tuple(axis) if isinstance(axis, (tuple, list)) else (axis,)
             keep = [i for i in range(x.ndim) if i not in axis]
             y = np.transpose(x, keep + sorted(axis)).reshape(tuple(x.shape[i] for i in keep) + (-1,))
-            w = np.arange(1, y.shape[-1] + 1) ** 2 + scale
-            return (y * w).sum(-1) + 7 * scale
+            w = np.arange(1, y.shape[-1] + 1) ** 2 + int(scale)
+            return (y * w).sum(-1) + 7 * int(scale) + (1 if isinstance(scale, float) else 0) + (2 if isinstance(scale, bool) else 0)
 
         return f
 
@@ -94,7 +104,7 @@ def concrete_fn(kind, with_kw):
         out = 0
         for i, x in enumerate(xs):
             out = out + (i + 2) ** 2 * np.asarray(x)
-        return out + 5 * scale
+        return out + 5 * int(scale) + (1 if isinstance(scale, float) else 0) + (2 if isinstance(scale, bool) else 0)
 
     return g
 
@@ -105,14 +115,18 @@ def user_reduce(x, axis, *, scale=1):
     axis = tuple(axis) if isinstance(axis, (tuple, list)) else (axis,)
     keep = [i for i in range(x.ndim) if i not in axis]
     y = np.transpose(x, keep + sorted(axis)).reshape(tuple(x.shape[i] for i in keep) + (-1,))
-    w = np.arange(1, y.shape[-1] + 1) ** 2 + scale
-    return (y * w).sum(-1) + 7 * scale
+    w = np.arange(1, y.shape[-1] + 1) ** 2 + int(scale)
+    return (y * w).sum(-1) + 7 * int(scale) + (1 if isinstance(scale, float) else 0) + (2 if isinstance(scale, bool) else 0)
 def user_elementwise(*xs, scale=1):
     out = 0
     for i, x in enumerate(xs):
         out = out + (i + 2) ** 2 * np.asarray(x)
-    return out + 5 * scale
+    return out + 5 * int(scale) + (1 if isinstance(scale, float) else 0) + (2 if isinstance(scale, bool) else 0)
 '''
+
+
+def kw_same(got, want):
+    return set(got) == set(want) and all(type(got[k]) is type(want[k]) and got[k] == want[k] for k in want)
 
 
 def work(item):
@@ -127,7 +141,7 @@ def work(item):
     einfn = (einx.numpy.adapt_numpylike_reduce if kind == "reduce" else einx.numpy.adapt_numpylike_elementwise)(fn)
     arrs = harness.build_inputs(case)
     res = {"desc": case["desc"], "kind": kind, "with_kw": with_kw, "option": opt, "results": []}
-    scales = [2, 3, 2] if with_kw else [None]
+    scales = [2, 3.0, 2.0, 2, True] if with_kw else [None]
     for call_no, scale in enumerate(scales):
         kw = dict(case["kwargs"])
         if scale is not None:
@@ -164,7 +178,7 @@ def work(item):
             c = log[0]
             ax = c["axis"]
             bl = [l.size for l, b in leaves(expand(case["ins"][0])) if b]
-            ok_args = isinstance(ax, tuple) and all(isinstance(a, (int, np.integer)) for a in ax) and list(ax) == sorted(set(ax)) and [c["shape"][a] for a in ax if c["shape"][a] != 1] == [b for b in bl if b != 1] and c["kw"] == ({opt: scale} if scale is not None else {}) and c["type"] == "SymArray"
+            ok_args = isinstance(ax, tuple) and all(isinstance(a, (int, np.integer)) for a in ax) and list(ax) == sorted(set(ax)) and [c["shape"][a] for a in ax if c["shape"][a] != 1] == [b for b in bl if b != 1] and kw_same(c["kw"], {opt: scale} if scale is not None else {}) and c["type"] == "SymArray"
         elif ok_args:
             c = log[0]
             nd = {len(s) for s in c["shapes"]}
@@ -173,7 +187,7 @@ def work(item):
                 bc = True
             except ValueError:
                 bc = False
-            ok_args = len(nd) == 1 and bc and len(c["shapes"]) == len(case["ins"]) and c["kw"] == ({opt: scale} if scale is not None else {})
+            ok_args = len(nd) == 1 and bc and len(c["shapes"]) == len(case["ins"]) and kw_same(c["kw"], {opt: scale} if scale is not None else {})
         r["args_ok"] = ok_args
         if v in ("unsat", "trivial") and ok_args:
             r["status"] = "holds"
@@ -307,9 +321,7 @@ def main():
     timeout_ms = 30000 if tier == "thorough" else 10000
     items = []
     rng = random.Random(seed)
-    for c in family.generate("reduce", N["reduce"] * mult, seed + 15, tier):
-        if c["form"] == "implicit-brackets" and False:
-            continue
+    for c in family.generate("reduce", N["reduce"] * mult, seed + 15, tier) + family.exhaustive("reduce-brackets"):
         lane = int(np.prod([l.size for l, b in leaves(expand(c["ins"][0])) if b] or [1]))
         if lane <= 9 and c["kinds"] == ["int"]:
             c = dict(c, op="sum")
